@@ -10,7 +10,9 @@ import (
 	"math/bits"
 	"path/filepath"
 	"runtime"
+	"runtime/debug"
 	"strings"
+	"sync"
 	"unicode/utf8"
 	"unsafe"
 
@@ -93,7 +95,9 @@ type Info15 struct {
 	// byte strings returned with newBuf=true that the harness overwrote in place (up to their capacity), as their
 	// owner may, before it decoded the same encoding again
 	Scribbled int64
-	classes   map[string]struct{}
+	// Marshal calls into destinations placed next to an inaccessible page (guardSweep15)
+	GuardDst int64
+	classes  map[string]struct{}
 }
 
 func (i *Info15) class(c string) {
@@ -390,6 +394,11 @@ func run15(c Case15, info *Info15) *vstat.Violation {
 		if v := windowSweep(where, cd, enc, info); v != nil {
 			return v
 		}
+		// ... and on destinations with len == cap that end right in front of an inaccessible page / begin right behind
+		// one: an access outside the destination that changes nothing (or would restore what it read) is a memory fault
+		if v := guardSweep15(where, cd, enc, info); v != nil {
+			return v
+		}
 		// the stream writer emits the same bytes and the same count
 		var bb bytes.Buffer
 		ow := &xbinary.ObjectsWriter{Writer: &bb}
@@ -666,6 +675,87 @@ func windowSweep(where string, cd codec, enc []byte, info *Info15) *vstat.Violat
 	return nil
 }
 
+// guardSweep15: Marshal into a destination of d bytes (len == cap == d) that ENDS at the last byte in front of an
+// inaccessible page, and into one that BEGINS at the first byte behind an inaccessible page, for d = 0..size+1 (sizes
+// above 64: 0..32 and size-16..size+1). Writing dst[n:len(dst)] is the callee's right, touching anything outside
+// dst[:len(dst)] is not: there it is a memory fault (signature out-of-bounds-access), whatever the bytes are afterwards.
+// The results obey the same law as on the heap. Items larger than the guard arena are skipped (class).
+func guardSweep15(where string, cd codec, enc []byte, info *Info15) *vstat.Violation {
+	size := cd.size
+	switch {
+	case !guardAvailable():
+		info.class("guard_pages_unavailable")
+		guardNote15.Do(func() {
+			vstat.For("C15").Inconclusivef("guard-page placement of Marshal destinations is not available in this process: accesses outside the destination that change no byte are not observed")
+		})
+		return nil
+	case size+1 > guardCapacity():
+		info.class("guard_pages_item_too_big_heap_only")
+		return nil
+	}
+	info.class("guard_pages_around_marshal_destination")
+	guardAcquire()
+	defer guardRelease()
+	for _, atEnd := range []bool{true, false} {
+		side := "ends in front of an inaccessible page"
+		if !atEnd {
+			side = "begins behind an inaccessible page"
+		}
+		for d := 0; d <= size+1; d++ {
+			if size > 64 && d > 32 && d < size-16 {
+				d = size - 16
+			}
+			dst := guardSlice(d, atEnd)
+			for j := range dst {
+				dst[j] = 0xA5
+			}
+			var n int
+			var err error
+			if v := faultGuard("xbin:out-of-bounds-access:Marshal", dst, func() { n, err = cd.marshal(dst) }); v != nil {
+				v.Msg = fmt.Sprintf("%s: Marshal into a destination of %d bytes (needs %d) that %s: %s", where, d, size, side, v.Msg)
+				return v
+			}
+			info.GuardDst++
+			if d < size {
+				if err == nil {
+					return vstat.V("xbin:short-dst-accepted", "%s: Marshal into %d bytes (needs %d), a destination that %s, returned (%d, nil)", where, d, size, side, n)
+				}
+				if n != 0 {
+					return vstat.V("xbin:short-dst-count", "%s: Marshal into %d bytes (needs %d), a destination that %s, failed but returned n=%d, want 0", where, d, size, side, n)
+				}
+				continue
+			}
+			if err != nil || n != size {
+				return vstat.V("xbin:dst-rejected", "%s: Marshal into %d bytes (needs %d), a destination that %s, returned (%d, %v)", where, d, size, side, n, err)
+			}
+			if !bytes.Equal(dst[:size], enc) {
+				return vstat.V("xbin:encoding-differs", "%s: Marshal into %d bytes, a destination that %s, wrote %s, into a heap buffer of %d bytes %s", where, d, side, short(dst[:size]), size, short(enc))
+			}
+		}
+	}
+	return nil
+}
+
+var guardNote15 sync.Once
+
+// faultGuard runs f on this goroutine with memory faults turned into panics and reports a fault - but not an ordinary
+// panic, which is left to the caller's own recover - under sig, located relative to buf.
+func faultGuard(sig string, buf []byte, f func()) (v *vstat.Violation) {
+	defer debug.SetPanicOnFault(debug.SetPanicOnFault(true))
+	defer func() {
+		if r := recover(); r != nil {
+			fa, ok := r.(interface{ Addr() uintptr })
+			if !ok || fa.Addr() < 4096 {
+				panic(r)
+			}
+			v = panicViolation(sig, r)
+			v.Msg = faultText(fa.Addr(), buf) + "; " + v.Msg
+		}
+	}()
+	f()
+	return nil
+}
+
 func checkDecoded(where string, d decoded, size int) *vstat.Violation {
 	if d.err != nil {
 		return vstat.V("xbin:roundtrip-error", "%s: Unmarshal of the encoder's output failed: %v", where, d.err)
@@ -779,6 +869,7 @@ type Info16 struct {
 	Over64     bool   // significant bits beyond 64 were dropped
 	Overlong   bool   // more groups than the value needs
 	Remaining  int    // bytes after the prefix
+	Guard      int    // guard-page presentations made by Run16Bytes (GuardNone for the other case types)
 }
 
 // Classify reads the input the way a length-prefixed decoder would (classification only, never an oracle).
@@ -817,9 +908,29 @@ func (i Info16) NonTrivial() bool {
 // Classes for the histogram.
 func (i Info16) Classes() []string {
 	var c []string
+	switch i.Guard {
+	case GuardPlaced:
+		c = append(c, "guard_pages_behind_and_in_front_of_input")
+		switch {
+		case i.Len == 0:
+			c = append(c, "guard_pages_empty_input")
+		case i.Len < 8:
+			c = append(c, "guard_pages_input_1-7_bytes")
+		case i.Len <= 16:
+			c = append(c, "guard_pages_input_8-16_bytes")
+		case i.Len < 4<<10:
+			c = append(c, "guard_pages_input_17_bytes_to_4KiB")
+		default:
+			c = append(c, "guard_pages_input_ge_4KiB")
+		}
+	case GuardTooBig:
+		c = append(c, "guard_pages_input_too_big_heap_only")
+	case GuardUnavailable:
+		c = append(c, "guard_pages_unavailable")
+	}
 	switch {
 	case i.Len == 0:
-		return []string{"empty_input"}
+		return append(c, "empty_input")
 	case !i.Terminated:
 		c = append(c, "prefix_unterminated")
 	default:
@@ -939,14 +1050,45 @@ type lazy func() string
 
 func (l lazy) String() string { return l() }
 
+// guard16 makes one decoder call. Besides ordinary panics it turns a memory fault of the call (an access to an unmapped
+// or protected address: the guard pages of the guard-page presentations, or wherever a wild pointer leads) into a
+// panic - debug.SetPanicOnFault, which covers the calling goroutine only, so the decoder runs right here - and reports
+// it under its own signature, with the faulting address relative to the input.
 func guard16(d decoder16, in []byte, o *out16) (v *vstat.Violation) {
+	defer debug.SetPanicOnFault(debug.SetPanicOnFault(true))
 	defer func() {
 		if r := recover(); r != nil {
+			if fa, ok := r.(interface{ Addr() uintptr }); ok && fa.Addr() >= 4096 {
+				v = panicViolation("xbin:out-of-bounds-access:"+d.name, r)
+				v.Msg = faultText(fa.Addr(), in) + "; " + v.Msg
+				return
+			}
 			v = panicViolation("xbin:decoder-panic:"+d.name, r)
 		}
 	}()
 	*o = d.f(in)
 	return nil
+}
+
+// faultText describes a faulting address relative to the buffer the call was given (no absolute addresses: the same
+// case gives the same text).
+func faultText(addr uintptr, buf []byte) string {
+	base := uintptr(unsafe.Pointer(unsafe.SliceData(buf)))
+	where := guardWhere(addr)
+	if where == "" {
+		where = "outside the guard arena"
+	}
+	if base == 0 {
+		return fmt.Sprintf("memory fault %s (the buffer is nil)", where)
+	}
+	off := int64(addr) - int64(base)
+	switch {
+	case off < 0:
+		return fmt.Sprintf("memory fault %d bytes BEFORE the first byte of the buffer of %d bytes, %s", -off, len(buf), where)
+	case off >= int64(len(buf)):
+		return fmt.Sprintf("memory fault at offset %d of a buffer of %d bytes (%d past its last byte), %s", off, len(buf), off-int64(len(buf))+1, where)
+	}
+	return fmt.Sprintf("memory fault at offset %d INSIDE the buffer of %d bytes, %s", off, len(buf), where)
 }
 
 // panicViolation describes a recovered panic by its value and the function:line frames between the panic and the
@@ -972,9 +1114,23 @@ func panicViolation(sig string, r any) *vstat.Violation {
 // Run16 feeds the input to every Unmarshal function.
 func Run16(c Case16) (Info16, *vstat.Violation) { return Run16Bytes(c.Bytes()) }
 
-// Run16Bytes is Run16 on raw bytes. The input is presented twice: as a slice whose capacity equals its length
-// (reading past the end panics) and inside a larger array (reading past the end shows up as a result outside
-// in[0:len]).
+// Guard-page presentations of an input (Info16.Guard).
+const (
+	GuardNone        = 0 // not a Run16Bytes case
+	GuardPlaced      = 1 // presented behind and in front of an inaccessible page
+	GuardTooBig      = 2 // longer than the guard arena: heap presentations only
+	GuardUnavailable = 3 // no guard arena in this process (platform, mmap refused)
+)
+
+var guardNote sync.Once
+
+// Run16Bytes is Run16 on raw bytes. The input is presented four times: as a heap slice whose capacity equals its
+// length (reading past the end through the slice panics), inside a larger array (a result past the end shows up as a
+// result outside in[0:len]), and - guard-page placement - as a slice with len == cap that ENDS at the last byte in
+// front of an inaccessible page and as one that BEGINS at the first byte behind an inaccessible page: there an access
+// outside the slice that goes around the bounds checks (unsafe word loads, assembly) and changes no result is a memory
+// fault, which guard16 reports. On every presentation the per-call oracle is the same, and the guard-page calls must
+// return what the same call returned for the heap copy (n, success, bytes).
 func Run16Bytes(input []byte) (Info16, *vstat.Violation) {
 	info := Classify(input)
 	exact := append([]byte(nil), input...) // nil for the empty input
@@ -987,14 +1143,52 @@ func Run16Bytes(input []byte) (Info16, *vstat.Violation) {
 	}
 	slack := big[8 : 8+len(input)]
 	copy(slack, input)
+	ref := make([]out16, len(decoders16))
 	for fi, in := range [][]byte{exact, slack} {
 		form := "cap==len"
 		if fi == 1 {
 			form = "cap>len"
 		}
-		for _, d := range decoders16 {
-			if _, v := check16(d, in, form); v != nil {
+		for di, d := range decoders16 {
+			o, v := check16(d, in, form)
+			if v != nil {
 				return info, v
+			}
+			if fi == 0 {
+				ref[di] = o
+			}
+		}
+	}
+	switch {
+	case !guardAvailable():
+		info.Guard = GuardUnavailable
+		guardNote.Do(func() {
+			vstat.For("C16").Inconclusivef("guard-page placement of decoder inputs is not available in this process (platform without the mmap/mprotect arena, or the mapping was refused): over-reads that change no result are not observed")
+		})
+		return info, nil
+	case len(input) > guardCapacity():
+		info.Guard = GuardTooBig
+		return info, nil
+	}
+	info.Guard = GuardPlaced
+	guardAcquire()
+	defer guardRelease()
+	for _, atEnd := range []bool{true, false} {
+		in := guardSlice(len(input), atEnd)
+		copy(in, input)
+		form := "guard page behind the input"
+		if !atEnd {
+			form = "guard page in front of the input"
+		}
+		for di, d := range decoders16 {
+			o, v := check16(d, in, form)
+			if v != nil {
+				return info, v
+			}
+			if w := ref[di]; o.n != w.n || (o.err == nil) != (w.err == nil) || !bytes.Equal(o.data, w.data) {
+				return info, vstat.V("xbin:placement-dependent-result:"+d.name,
+					"%s(%s): returned (n=%d, err=%v, %s) for the input placed with a %s and (n=%d, err=%v, %s) for a heap copy of the same bytes",
+					d.name, short(in), o.n, o.err, short(o.data), form, w.n, w.err, short(w.data))
 			}
 		}
 	}
